@@ -8,10 +8,6 @@ the theorems are about the model instantiated with them.
 namespace Frappy.Props.C19
 open Frappy.Discovery Frappy.Spec.C19
 
-/-- the node as the Spec sees it: what the server hands to `UDPListener` -/
-def nodeOf (id version : Str) (description : Option Str) (ifaces : List Iface) : Node :=
-  ⟨id, firmwareOf version, description.getD [], ifaces⟩
-
 /-! ## table facts -/
 
 theorem max_message_len_le_508 : generatedTables.maxLen ≤ limit := by decide
